@@ -802,11 +802,21 @@ def check_peer_record(ctx: Ctx) -> None:
            construct=construct(f, 'config:status-default'))
 
 
+def _check_extra(ctx: Ctx) -> None:
+    from . import _extra, C09
+    from ..core import include
+    _extra.check_keepalive_renewal(ctx, 'R13.5')
+    # R13.3 (= R9.4/R9.5): while paused the daemons are stopped in stages (flag, cancel, abandon) by the in-memory stopper as well
+    include(ctx, C09.check_staged_termination, 'R13.3', 'C09')
+    include(ctx, C09.check_pausing_and_killer, 'R13.3', 'C09')
+
+
 def check(ctx: Ctx) -> None:
     check_peer_classes(ctx)
     check_keepalive(ctx)
     check_pause_wiring(ctx)
     check_peer_record(ctx)
+    _check_extra(ctx)
 
 
 SPEC = PropSpec(
